@@ -129,6 +129,13 @@ theorem fact_save_in_write_tx_notify_after_commit :
     Facts.C14.writePayloadSaveInWriteTx = 1 ∧ Facts.C14.writePayloadSaveOutsideWriteTx = 0 ∧
     Facts.C14.writePayloadNotifyInAfterCommit = 1 ∧ Facts.C14.writePayloadNotifyElsewhere = 0 := by decide
 
+/-- state.saveEvent stops at the first Save error and returns it (the write transaction is then rolled back: admission is
+    all-or-nothing over the subscribers); state.notify visits every notifier; state.Add repeats the presence check as the
+    first statement inside its write transaction (a duplicate Add that raced past the read phase admits nothing) -/
+theorem fact_save_event_all_or_nothing :
+    Facts.C14.saveEventBody = ["err = <*ast.TypeAssertExpr>.Save(tx, event)", "return err == nil", "return err"] ∧
+    Facts.C14.notifyBody = ["return true"] ∧ Facts.C14.addRechecksPresenceFirstInWriteTx = true := ⟨rfl, rfl, rfl⟩
+
 /-- State.WritePayload returns before saveEvent, and then does not notify, exactly when the payload event of THIS
     transaction was saved before: the test is keyed by the transaction ref (not by the payload hash), and both Add
     (with payload) and WritePayload set the marker inside the write transaction that saves the event -/
@@ -200,6 +207,35 @@ theorem payload_event_per_transaction (c : Cfg) (σ : St) (r : Nat) (hd : r ∈ 
   refine ⟨trivial, ?_, ?_⟩
   · rw [saveEvent_admitted]; exact List.mem_cons_self
   · rw [(saveEvent_spec _ _ _).evented]; exact List.mem_cons_self
+
+/-- **saveEvent reaches every subscriber**: after `saveEvent` every registered subscriber whose filters select the event
+    holds a job for the ref (a new one, or the one it had) -/
+theorem save_event_reaches_every_subscriber (c : Cfg) (σ : St) (ev : Nat × EvType) (s : Nat) (hs : s < c.nSubs)
+    (hsel : c.sel s ev.1 ev.2 = true) : ∃ j, (saveEvent c σ ev).shelf s ev.1 = some j := by
+  rw [(saveEvent_spec c σ ev).shelf]
+  cases h : σ.shelf s ev.1 with
+  | none => exact ⟨newJob ev.2, by simp [hs, hsel]⟩
+  | some j => exact ⟨j, by simp⟩
+
+/-- **admission is all-or-nothing over the subscribers**: a storage fault while writing ONE subscriber's job inside the
+    write transaction (`failShelf`) makes `Add` fail and nothing is admitted - no event, no job of any subscriber -/
+theorem add_with_shelf_fault_admits_nothing (c : Cfg) (σ : St) (a : AddArgs) (f : Nat) (hf : a.failShelf = some f)
+    (hlt : f < c.nSubs) (hsel : c.sel f a.ref .tx = true) : (addTx c σ a).1 = σ := by
+  have hh : shelfFaultHits c a.failShelf a.ref .tx = true := by simp [shelfFaultHits, hf, hlt, hsel]
+  rcases addTx_cases c σ a with ⟨_, he⟩ | ⟨hok, _⟩
+  · exact he
+  · exfalso
+    unfold addTx at hok
+    repeat' split at hok
+    all_goals simp_all
+
+/-- a duplicate `Add` of a transaction that is already on the DAG changes nothing (no event admitted again, no job
+    re-created, no notification queued) - whatever came with it -/
+theorem duplicate_add_changes_nothing (c : Cfg) (σ : St) (a : AddArgs) (h : a.ref ∈ σ.dag) : (addTx c σ a).1 = σ := by
+  unfold addTx
+  split
+  · rfl
+  · simp [h]
 
 /-! ### only_admitted_delivered -/
 
